@@ -340,7 +340,12 @@ class Driver(object):
         k.killq = list(op.get('killq', []))
         k.faults = dict((name, list(q)) for name, q in op.get('faults', {}).items())
         for (ck, chan, data) in op.get('outputs', []):
-            k.child_write(ck, chan, bytes(data))
+            data = bytes(data)
+            if self.script.get('marks') and k.live:
+                # a plain marker line naming the process whose child writes: it may only ever show up in that
+                # process's own log files (judged at the end of the run)
+                data += b'\nMARK-p%d-\n' % k.owner_of.get(k.live[ck % len(k.live)], -1)
+            k.child_write(ck, chan, data)
         for a in op['acts']:
             self.do_act(a)
         k.trace.append(('endacts', self.opi - 1))              # harness marker: what follows comes from the loop itself
@@ -601,7 +606,22 @@ class Driver(object):
                 self._saved_select[0].select = self._saved_select[1]
             from supervisor import events
             events.clear()
-        return {'snaps': self.snaps, 'trace': self.kernel.trace, 'ended': self.ended,
+        misattributed = []
+        if self.script.get('marks') and self.script.get('logdir') and os.path.isdir(self.script['logdir']):
+            import re
+            for fn in sorted(os.listdir(self.script['logdir'])):
+                m = re.match(r'p(\d+)\.(out|err)\.log', fn)
+                if not m:
+                    continue
+                try:
+                    with open(os.path.join(self.script['logdir'], fn), 'rb') as f:
+                        text = f.read()
+                except OSError:
+                    continue
+                for w in set(re.findall(br'MARK-p(-?\d+)-', text)):
+                    if int(w) != int(m.group(1)):
+                        misattributed.append((fn, int(w)))
+        return {'misattributed': misattributed, 'snaps': self.snaps, 'trace': self.kernel.trace, 'ended': self.ended,
                 'crash': getattr(self, 'crash_tb', None), 'hangs': list(self.kernel.hangs),
                 'stale_pools': getattr(self, 'stale_pools', 0)}
 
